@@ -4,6 +4,7 @@ import collections
 
 from vt.world import World
 from vt import monitors as M
+from vt.bus import order_fingerprint
 from vt.bus import ScriptNode
 from ref import codec as C
 
@@ -266,6 +267,7 @@ def run_case(case):
     sample = dict(case=dict(seed=case['seed'], layer=layer), frames=L, classes=dict(labels), own_sends=own[:6], contained_exceptions=dict(A.notify_exc),
                   exception_samples=A.notify_exc_samples[:3], sessions_open_at_end_of_sequence=sessions_opened)
     res = dict(violations=list(viol), inconclusive=None, sig=sig, nontrivial=A.rx_frames + fed[0] > 0, obs=obs, sample=sample)
+    res['fingerprint'] = order_fingerprint(W.bus.frames)
     if replay_run:
         res['trace'] = trace + [f.brief() for f in W.bus.frames[:300]]
     W.close()
